@@ -252,7 +252,7 @@ func (s *EncryptionSession) In(seqNum uint32, prio bool) (
 		if prio {
 			return nil, errors.New("prio sequence handler requested key rollover")
 		}
-		s.prioSeqHandler.Reset()
+		s.prioSeqHandler.ResetIn()
 		if err := s.rolloverInKey(); err != nil {
 			return nil, fmt.Errorf("rollover in key: %w", err)
 		}
@@ -289,7 +289,7 @@ func (s *EncryptionSession) Out(prio bool) (
 		if prio {
 			return 0, 0, 0, nil, errors.New("prio sequence handler requested key rollover")
 		}
-		s.prioSeqHandler.Reset()
+		s.prioSeqHandler.ResetOut()
 		if err := s.rolloverOutKey(); err != nil {
 			return 0, 0, 0, nil, fmt.Errorf("rollover in key: %w", err)
 		}
@@ -406,6 +406,26 @@ func (sh *SequenceHandler) Reset() {
 	defer sh.lock.Unlock()
 
 	sh.highest = 0
+	sh.outSeq.Store(0)
+}
+
+// ResetIn resets the incoming sequence window.
+// This is only used for resetting the priority sequence,
+// when the regular triggered a rollover of the incoming key.
+// The outgoing counter belongs to the other direction, whose key did not change.
+func (sh *SequenceHandler) ResetIn() {
+	sh.lock.Lock()
+	defer sh.lock.Unlock()
+
+	sh.highest = 0
+	sh.bitMap = 0
+}
+
+// ResetOut resets the outgoing sequence counter.
+// This is only used for resetting the priority sequence,
+// when the regular triggered a rollover of the outgoing key.
+// The incoming window belongs to the other direction, whose key did not change.
+func (sh *SequenceHandler) ResetOut() {
 	sh.outSeq.Store(0)
 }
 
